@@ -1,12 +1,14 @@
 PROPERTY = {
     'id': 'C18',
-    'contract_modules': ['doctest_part'],
+    'contract_modules': ['doctest_example', 'doctest_part', 'parser'],
     'functions': ['xdoctest.doctest_part:DoctestPart.format_part', 'xdoctest.utils.util_str:indent',
-                  'xdoctest.utils.util_str:add_line_numbers', 'xdoctest.utils.util_str:highlight_code'],
+                  'xdoctest.utils.util_str:add_line_numbers', 'xdoctest.utils.util_str:highlight_code',
+                  'xdoctest.parser:DoctestParser._package_groups#offsets', 'xdoctest.parser:DoctestParser._package_chunk'],
     'clauses': {
         'P': ['DoctestPart.format_part with prompts, without colours, line numbers or part numbers: the text is exactly the part\'s original '
               'prompt lines in order, followed -- iff want=True and the part has a want -- by its want lines in order, joined by newlines: '
-              'every source and want line once, nothing added, dropped, trimmed or reordered (loop invariant over the want lines)'],
+              'every source and want line once, nothing added, dropped, trimmed or reordered (loop invariant over the want lines)',
+              'the line offsets the numbered display adds to (part.line_offset) are the true indices of the parts: _package_groups offset invariant'],
         'T': ["law of the builtins: '\\n'.join(xs).splitlines() == xs for plain lines (no embedded line boundary, last line not empty); "
               "join distributes over list concatenation"],
         'N/A': ['"parsing that text again yields the same doctest": a round trip through the tokenizer / ast based parser',
